@@ -63,7 +63,7 @@ func captureReinitHashes(w *world.World) map[string][]byte {
 }
 
 func checkC20(c *Ctx) {
-	c.Rule = "original ceremonies for (n,t), n<=4, under random delivery (some with an interleaved second round, signing and junk on the board) are reinitialised on fresh nodes with fresh communication keys and fresh machines from the same mnemonics through the real procedure (GenerateReDKGMessage, optionally stripped to the v0.1.4 shape + GetAdaptedReDKG, ReInitDKG, reinit operation through every machine, result back); plus the recorded v0.1.4 log of the repository with its mnemonics. Oracle: every node signing-idle with the original participants, threshold and public polynomial; every machine's share equals the original; a batch signed afterwards verifies (prysm) under the original group key; the confirmation hash is identical on all nodes and changes under every single-field edit of the reinit file. Half of the reinitialisations restart the restored machines before the reinit operation, a third enter set_seed a second time on them. Two fifths: one operator finishes his reinit and proposes a batch before the others return their reinit results. The reinit message must carry exactly the new key handed in for every participant name. distinct = distinct (scenario, n, t) reinitialisations + distinct edited fields"
+	c.Rule = "original ceremonies for (n,t), n<=4, under random delivery (some with an interleaved second round, signing and junk on the board) are reinitialised on fresh nodes with fresh communication keys and fresh machines from the same mnemonics through the real procedure (GenerateReDKGMessage, optionally stripped to the v0.1.4 shape + GetAdaptedReDKG, ReInitDKG, reinit operation through every machine, result back); plus the recorded v0.1.4 log of the repository with its mnemonics. Half of the v0.1.4-shaped dumps begin with well-formed deal messages of a foreign round sent by non-participants. Oracle: every node signing-idle with the original participants, threshold and public polynomial; every machine's share equals the original; a batch signed afterwards verifies (prysm) under the original group key; the confirmation hash is identical on all nodes and changes under every single-field edit of the reinit file. Half of the reinitialisations restart the restored machines before the reinit operation, a third enter set_seed a second time on them. Two fifths: one operator finishes his reinit and proposes a batch before the others return their reinit results. The reinit message must carry exactly the new key handed in for every participant name. distinct = distinct (scenario, n, t) reinitialisations + distinct edited fields"
 	c.Assumptions = []string{"the dump contains the target round's complete key generation before the first signing proposal (the arrangement the tooling supports)", "the v0.1.4 log is judged against the group key announced in the log itself"}
 	// machines log their operations (so that a restart + replay after the reinitialisation is possible)
 	world.UseOpLog = true
@@ -136,6 +136,17 @@ func runC20(c *Ctx, n, t int, shape string, seed uint64) {
 			return
 		}
 		c.Add("originals_that_were_the_machines_second_ceremony", 1)
+	}
+	if shape == "adapted014" && seed%2 == 0 {
+		// another ceremony shares the board: well-formed deal messages of a foreign round, sent by people who
+		// take no part in the target round, stand in the dump before the target round's own deals. Nodes skip
+		// them (other round id); the adaptation of the v0.1.4 log must still serve every participant.
+		for k, who := range []string{"mallory", "trent"} {
+			d, _ := json.Marshal(requests.DKGProposalDealConfirmationRequest{ParticipantId: k, Deal: []byte("foreign-deal"), CreatedAt: now()})
+			_ = w.Board.Send(storage.Message{DkgRoundID: "f0f0f0f0f0f0f0f0" + oracle.Hash(who), Event: EvDeal, Data: d, SenderAddr: who, RecipientAddr: "peggy", Signature: []byte("foreign")})
+		}
+		wit["foreign_rounds_deals_before_the_target_round"] = true
+		c.Add("v014_dumps_with_a_foreign_rounds_deals_first", 1)
 	}
 	old.Round, err = w.StartDKG(int(seed)%n, t, now())
 	if err != nil {
@@ -391,6 +402,17 @@ func judgeReinit(c *Ctx, ce *Ceremony, re *types.ReDKG, origKey []byte, origComm
 		tryEdit("message.event", func(x *types.ReDKG) { x.Messages[i].Event += "x" })
 		tryEdit("message.round", func(x *types.ReDKG) { x.Messages[i].DkgRoundID += "x" })
 		tryEdit("message.offset", func(x *types.ReDKG) { x.Messages[i].Offset += 1000 })
+	}
+	if len(re.Messages) > 3 {
+		// a message nobody sent, put in front of a genuine one under the identifier of an earlier entry (the
+		// identifier is neither signed nor meaningful to the replay): the file is a different one
+		tryEdit("messages.inserted-under-a-reused-id", func(x *types.ReDKG) {
+			at := len(x.Messages) / 2
+			forged := x.Messages[at]
+			forged.ID = x.Messages[0].ID
+			forged.Data = flip(forged.Data)
+			x.Messages = append(x.Messages[:at], append([]storage.Message{forged}, x.Messages[at:]...)...)
+		})
 	}
 	tryEdit("messages.dropped-last", func(x *types.ReDKG) { x.Messages = x.Messages[:len(x.Messages)-1] })
 	tryEdit("messages.swapped", func(x *types.ReDKG) { x.Messages[1], x.Messages[2] = x.Messages[2], x.Messages[1] })
